@@ -68,9 +68,44 @@ RATE_PROGRAMS = {
 }
 
 
+SHIPPED = {
+    # rate programs shipped in phreeqc.dat (no closed form: only invariance under step division / integrator is checked)
+    "calcite": dict(sol=[" pH 6 charge", " C(4) 1 CO2(g) -2.5", " Ca 0.1"], name="Calcite", formula=None,
+                    m0=(2e-3, 1e-2), parms=lambda r: "%s 0.6" % dec(r.choice([20, 200, 2000]) * r.uniform(0.5, 1)), T=[2000, 20000, 86400]),
+    "pyrite": dict(sol=[" pH 7", " O(0) 0.3", " Na 1", " Cl 1 charge"], name="Pyrite", formula=None,
+                   m0=(5e-3, 2e-2), parms=lambda r: "%s 0.67 0.5 -0.11" % dec(r.uniform(0.3, 2.5)), T=[1e5, 1e6, 1e7]),
+    "organic": dict(sol=[" pH 7", " O(0) 0.3", " N(5) 0.1", " S(6) 1", " Na 2.1 charge"], name="Organic_C", formula="CH2O 1",
+                    m0=(0.1, 1.0), parms=lambda r: "", T=[1e6, 3e7, 3e8]),
+    "kspar": dict(sol=[" pH 5", " Na 1", " Cl 1 charge", " C(4) 0.1"], name="K-feldspar", formula=None,
+                  m0=(0.2, 1.0), parms=lambda r: "%s %s" % (dec(r.uniform(1, 10)), dec(r.uniform(0.1, 1.0))), T=[1e6, 1e7, 1e8]),
+}
+
+
+def shipped_scenario(rng, kind=None):
+    kind = kind or rng.choice(sorted(SHIPPED))
+    d = SHIPPED[kind]
+    T = rng.choice(d["T"])
+    sc = {"family": "shipped", "kind": kind, "tol": rng.choice(["1e-7", "1e-8", "1e-9", "1e-10"]),
+          "m0": dec(rng.uniform(*d["m0"])), "parms": d["parms"](rng), "T": T}
+    if kind == "pyrite":
+        # the Williamson-Rimstidt law goes like sqrt(O2): dissolved oxygen would be exhausted in FINITE time (rate law not
+        # Lipschitz there, no tolerance statement is meaningful).  Stay where at most ~30 % of the O2 is consumed.
+        rate0 = 10 ** (float(sc["parms"].split()[0]) + math.log10(float(sc["m0"])) - 9.18)      # mol/s at the start
+        T = float(dec(rng.uniform(0.05, 0.3) * 8e-5 / rate0, 2))
+        sc["T"] = int(T) if T == int(T) else T
+    n = rng.choice([2, 3, 4])
+    cuts = sorted(rng.sample(range(1, 20), n - 1))
+    incs = [Fraction(b - a, 20) * Fraction(T) for a, b in zip([0] + cuts, cuts + [20])]
+    sc["incs"] = [str(float(x)) if float(x) != int(x) else str(int(x)) for x in incs]
+    sc["nequal"] = rng.choice([2, 3, 4, 5])
+    return sc
+
+
 def scenario(rng, fam=None):
     """one rate-law instance: family, parameters, tolerance, total time"""
-    fam = fam or rng.choice(["zero", "first", "first", "rev", "chain", "ramp", "zero_exhaust"])
+    fam = fam or rng.choice(["zero", "first", "first", "rev", "chain", "ramp", "zero_exhaust", "shipped"])
+    if fam == "shipped":
+        return shipped_scenario(rng)
     tol = rng.choice(["1e-6", "1e-7", "1e-8", "1e-8", "1e-9", "1e-10", "1e-11"])
     T = rng.choice([10, 40, 100, 400, 1000, 3600, 86400, 1e6])
     sc = {"family": fam, "tol": tol}
@@ -112,6 +147,8 @@ def scenario(rng, fam=None):
 def reactants(sc):
     """[(name, rate program, m0, parms, formula)]"""
     f = sc["family"]
+    if f == "shipped":
+        return [(SHIPPED[sc["kind"]]["name"], None, sc["m0"], sc["parms"].split())]
     if f in ("zero", "zero_exhaust"):
         return [("Aa", "zero", sc["m0"], [sc["r"]])]
     if f == "first":
@@ -223,7 +260,27 @@ def variants(sc, rng, full):
 SOLUTION_NA = "0.2"   # mol/kgw of NaCl in the batch solution (enough for every reactant that grows)
 
 
+def shipped_text(sc, v):
+    d = SHIPPED[sc["kind"]]
+    L = ["SOLUTION 1", " units mmol/kgw", " temp 25"] + d["sol"]
+    L.append("INCREMENTAL_REACTIONS %s" % ("true" if v["incr"] else "false"))
+    L += ["KINETICS 1", " %s" % d["name"]]
+    if d["formula"]:
+        L.append("  -formula %s" % d["formula"])
+    L += ["  -m0 %s" % sc["m0"], "  -m %s" % sc["m0"]]
+    if sc["parms"]:
+        L.append("  -parms %s" % sc["parms"])
+    L += ["  -tol %s" % sc["tol"], " -steps %s" % v["steps"]] + [" " + o for o in v["opts"]]
+    n = d["name"]
+    L += ["SELECTED_OUTPUT 1", " -reset false", " -high_precision true", " -step true", " -time true", " -kinetic_reactants %s" % n,
+          "USER_PUNCH 1", " -headings kin_time total_time water kin_%s dkin_%s" % (n, n),
+          " 10 PUNCH KIN_TIME, TOTAL_TIME, TOT(\"water\"), KIN(\"%s\"), KIN_DELTA(\"%s\")" % (n, n), "END"]
+    return "\n".join(L) + "\n"
+
+
 def input_text(sc, v):
+    if sc["family"] == "shipped":
+        return shipped_text(sc, v)
     L = ["RATES"]
     used = set()
     for name, prog, m0, parms in reactants(sc):
@@ -315,9 +372,10 @@ def analyse(sc, vs, results, checks, info):
     """collect Coq checks for one scenario.  checks: list of (coq bool expr, descriptor dict)"""
     tol = fr(sc["tol"])
     bound = vlib.coq_Q(100 * tol)
-    cfs = closed_forms_coq(sc)
+    shipped = sc["family"] == "shipped"
+    cfs = None if shipped else closed_forms_coq(sc)
     names = [r[0] for r in reactants(sc)]
-    texh = exhaustion_time(sc)
+    texh = None if shipped else exhaustion_time(sc)
     reached = {}     # time (float) -> list of (variant name, {reactant: value})
     for v in vs:
         r = results.get(v["id"])
@@ -326,7 +384,7 @@ def analyse(sc, vs, results, checks, info):
             info["timeouts"] += 1
             # a run that does not return is outside "every KINETICS calculation that completes"; F4-like hangs are
             # not expected in this family, so it is reported in the evidence
-            info["notes"].add("run did not return: %s %s" % (sc["family"], v["name"]))
+            info["notes"].add(("run did not return (twice, 25 s / 60 s): %s %s %s" if (r or {}).get("timeout") else "run crashed: %s %s %s") % (sc["family"], v["name"], json.dumps({k: sc[k] for k in sc if k not in ("incs", "nequal")}, sort_keys=True)))
             continue
         if r.get("rc", 1) != 0:
             info["errors"] += 1
@@ -352,7 +410,7 @@ def analyse(sc, vs, results, checks, info):
                 exp_t = float(fr(v["list"][k - 1])) if not v["eq"] else float(fr(v["list"][0])) * k / v["cnt"]
             if abs(t - exp_t) > 1e-9 * abs(exp_t) or abs(row["total_time"] - exp_t) > 1e-9 * abs(exp_t):
                 checks.append(("false", dict(base, what="elapsed time after step %d" % k, observed=[t, row["total_time"]], expected=exp_t)))
-            py = closed_forms_py(sc, t)
+            py = None if shipped else closed_forms_py(sc, t)
             vals = {}
             for n in names:
                 m = row["k_" + n]
@@ -361,6 +419,8 @@ def analyse(sc, vs, results, checks, info):
                 if not (m >= 0) or m != row["kin_" + n]:
                     checks.append(("false", dict(base, what="reactant %s negative or KIN() differs from -kinetic_reactants at t=%g" % (n, t),
                                                  observed=[m, row["kin_" + n]], expected=">= 0, equal")))
+                if shipped:
+                    continue
                 # (b) closed form within 100 tol (verified checker)
                 if texh is not None and t >= texh * (1 - 1e-9):
                     if t > texh * (1 + 1e-9):
@@ -371,6 +431,10 @@ def analyse(sc, vs, results, checks, info):
                                    dict(base, what="%s(t=%g) vs closed form, 100*tol=%g" % (n, t, float(100 * tol)), observed=m, expected=py[n])))
                 info["max_err_over_tol"] = max(info["max_err_over_tol"], abs(m - max(py[n], 0.0)) / float(tol))
                 info["err_by_integ"].setdefault(v["name"].split("/")[1], []).append(abs(m - max(py[n], 0.0)) / float(tol))
+            if shipped:
+                prev = vals
+                reached.setdefault(round(t, 6), []).append((v["name"], vals))
+                continue
             # (e) transfer: what left the reactants arrived in the solution (every formula is NaCl 1)
             na, cl, w = row["Na(mol/kgw)"] * row["water"], row["Cl(mol/kgw)"] * row["water"], row["water"]
             tot_m = sum(vals.values())
@@ -407,7 +471,21 @@ def run_scenarios(ctx, scs, full=False, label="gen"):
             v["text"] = input_text(sc, v)
             jobs.append({"id": v["id"], "db": "phreeqc.dat", "text": v["text"]})
         per.append((sc, vs))
+    import time
+    t0 = time.time()
     results = vlib.run_inputs(jobs, timeout_each=25, workers=min(6, vlib.NCPU))
+    # a job reported as not returning / crashed inside a batch is re-run alone once (batch attribution is approximate)
+    lost = [j for j in jobs if (results.get(j["id"]) or {}).get("timeout") or (results.get(j["id"]) or {}).get("crash") or j["id"] not in results]
+    if lost:
+        again = vlib.run_inputs([dict(id=j["id"], db=j["db"], text=j["text"]) for j in lost], timeout_each=60, workers=min(6, vlib.NCPU))
+        for j in lost:
+            r2 = again.get(j["id"])
+            if r2 is not None and not r2.get("timeout") and not r2.get("crash"):
+                ctx.notes.append("job %s did not return inside its batch but completed when run alone" % j["id"])
+                results[j["id"]] = r2
+            elif r2 is not None:
+                results[j["id"]] = r2
+    vlib.log("[C12] %d engine runs %.1fs" % (len(jobs), time.time() - t0)); t0 = time.time()
     info = ctx.extra.setdefault("_info", {"timeouts": 0, "errors": 0, "runs_ok": 0, "error_kinds": {}, "max_err_over_tol": 0.0,
                                           "notes": set(), "err_by_integ": {}})
     checks = []
@@ -415,6 +493,7 @@ def run_scenarios(ctx, scs, full=False, label="gen"):
         analyse(sc, vs, results, checks, info)
     texts = {v["name"] + json.dumps(sc, sort_keys=True): v["text"] for sc, vs in per for v in vs}
     verdicts = coq_bools([c for c, _ in checks])
+    vlib.log("[C12] %d coq checks %.1fs" % (len(checks), time.time() - t0))
     nfail = 0
     for (expr, d), ok in zip(checks, verdicts):
         sc = d["scenario"]
@@ -433,6 +512,74 @@ def run_scenarios(ctx, scs, full=False, label="gen"):
                            "scenario": sc, "variant": d["variant"], "check": d["what"], "coq_check": expr,
                            "observed": d.get("observed"), "expected": d.get("expected")})
     return nfail
+
+
+# ----------------------------------------------------------------------------------------- kinetics inside ADVECTION / TRANSPORT
+
+def column_text(mode, m0, k, tol, dt, shifts, opts, disp):
+    L = ["RATES", " Aa", " -start", "  10 rate = PARM(1) * M", "  20 SAVE rate * TIME", " -end",
+         "SOLUTION 0-3", " units mol/kgw", " Na %s" % SOLUTION_NA, " Cl %s" % SOLUTION_NA,
+         "KINETICS 1-3", " Aa", "  -formula NaCl 1", "  -m0 %s" % m0, "  -m %s" % m0, "  -parms %s" % k, "  -tol %s" % tol] + [" " + o for o in opts]
+    if mode == "adv":
+        L += ["ADVECTION", " -cells 3", " -shifts %d" % shifts, " -time_step %s" % dt, " -punch_cells 2-3", " -punch_frequency 1"]
+    else:
+        L += ["TRANSPORT", " -cells 3", " -shifts %d" % shifts, " -time_step %s" % dt, " -flow_direction forward", " -boundary_conditions flux flux",
+              " -lengths 1", " -dispersivities %s" % disp, " -diffusion_coefficient 0.3e-9", " -punch_cells 2-3", " -punch_frequency 1"]
+    L += ["SELECTED_OUTPUT 1", " -reset false", " -high_precision true", " -step true", " -time true", " -solution true", " -kinetic_reactants Aa",
+          "USER_PUNCH 1", " -headings total_time cell kin", " 10 PUNCH TOTAL_TIME, CELL_NO, KIN(\"Aa\")", "END"]
+    return "\n".join(L) + "\n"
+
+
+def run_columns(ctx, n):
+    """first-order decay in the cells of a 3-cell column (all solutions identical, so the rate sees no chemistry change):
+    after s shifts of time_step dt the reactant of cells 2 and 3 must follow m0 exp(-k s dt) within 100 tol"""
+    rng = ctx.rng
+    jobs, meta = [], {}
+    integ = [["-runge_kutta 1"], ["-runge_kutta 2"], ["-runge_kutta 3"], ["-runge_kutta 6"], ["-cvode true"]]
+    for i in range(n):
+        mode = "adv" if i % 2 == 0 else "tr"
+        dt = rng.choice([10, 100, 3600, 86400])
+        shifts = rng.choice([2, 3, 4, 6])
+        m0 = dec(rng.choice([1e-3, 1e-2, 5e-2]) * rng.uniform(0.5, 1.0))
+        k = dec(rng.choice([0.05, 0.5, 2.0]) * rng.uniform(0.5, 1.0) / (dt * shifts))
+        tol = rng.choice(["1e-7", "1e-8", "1e-9", "1e-10"])
+        opts = rng.choice(integ)
+        disp = rng.choice(["0", "0.1", "0.3"])
+        txt = column_text(mode, m0, k, tol, str(dt), shifts, opts, disp)
+        jid = "col-%d" % i
+        jobs.append({"id": jid, "db": "phreeqc.dat", "text": txt})
+        meta[jid] = dict(mode=mode, dt=dt, shifts=shifts, m0=m0, k=k, tol=tol, opts=opts, disp=disp, text=txt)
+    res = vlib.run_inputs(jobs, timeout_each=60, workers=min(6, vlib.NCPU))
+    exprs, metas = [], []
+    for jid, m in meta.items():
+        r = res.get(jid) or {}
+        if r.get("rc") != 0:
+            ctx.notes.append("column run %s ended with rc=%s (%s)" % (jid, r.get("rc"), (r.get("err") or "")[:80]))
+            continue
+        rows = [x for x in vlib.table_dicts(r["tables"]["1"]) if x.get("soln") in (2, 3) and isinstance(x.get("step"), int) and x["step"] >= 1]
+        if len(rows) != 2 * m["shifts"]:
+            ctx.violation("C12:column-rows:" + vlib.key_of(m), "kinetics in %s: %d rows for cells 2-3, expected %d" % (m["mode"], len(rows), 2 * m["shifts"]),
+                          {"kind": "input", "database": "phreeqc.dat", "input_text": m["text"], "observed": len(rows), "expected": 2 * m["shifts"]})
+            continue
+        for row in rows:
+            t_exp = row["step"] * m["dt"]
+            sc = {"family": "first", "m0": m["m0"], "k": m["k"], "tol": m["tol"]}
+            what = "%s cell %d shift %d" % (m["mode"], row["soln"], row["step"])
+            if abs(row["time"] - t_exp) > 1e-9 * t_exp or abs(row["total_time"] - t_exp) > 1e-9 * t_exp or not (row["k_Aa"] >= 0):
+                exprs.append("false")
+            else:
+                exprs.append("check_closed %s %s %s %s" % (closed_forms_coq(sc)["Aa"], vlib.coq_Q(row["time"]), vlib.coq_Q(row["k_Aa"]), vlib.coq_Q(100 * fr(m["tol"]))))
+            metas.append((m, what, row, closed_forms_py(sc, t_exp)["Aa"]))
+    for (m, what, row, exp), ok in zip(metas, coq_bools(exprs)):
+        ctx.case("column:%s:%s:%s" % (m["mode"], " ".join(m["opts"]), what),
+                 sample={"column": m["mode"], "opts": m["opts"], "tol": m["tol"], "check": what, "observed": row["k_Aa"], "expected": exp, "accepted": bool(ok)})
+        if ok is None:
+            ctx.obligation("coq-evaluation-of-column-cases", False, "column cases did not evaluate")
+        elif not ok:
+            ctx.violation("C12:column:%s:%s" % (m["mode"], vlib.key_of([m["m0"], m["k"], m["tol"], m["opts"], what])),
+                          "kinetics inside %s (%s, tol %s): %s: M = %r at time %r / TOTAL_TIME %r, expected %r at %r" %
+                          (m["mode"], " ".join(m["opts"]), m["tol"], what, row["k_Aa"], row["time"], row["total_time"], exp, row["step"] * m["dt"]),
+                          {"kind": "input", "database": "phreeqc.dat", "input_text": m["text"], "observed": row["k_Aa"], "expected": exp, "column": {k: v for k, v in m.items() if k != "text"}})
 
 
 # ----------------------------------------------------------------------------------------- step-level correspondence
@@ -510,7 +657,7 @@ def run_traces(ctx, n):
         q = lambda t: vlib.coq_Q(fr(t))
         exprs.append("trace_ok %s %s %s %s %s [%s]" % (q(lam), q(r1), q(m0), q(Ts), q(tol), recs))
         metas.append((jid, lam, r1, m0, Ts, tol, txt, [row["m%d" % i] for i in range(1, k + 1)]))
-    oks = coq_bools(exprs, chunk=10, prelude=PRELUDE_TRACE)
+    oks = coq_bools(exprs, chunk=4, prelude=PRELUDE_TRACE)
     for (jid, lam, r1, m0, Ts, tol, txt, ms), ok in zip(metas, oks):
         ctx.case("trace:%s:%s:%s:%s" % (lam, r1, m0, Ts), sample={"trace": {"lam": lam, "r1": r1, "m0": m0, "T": Ts, "tol": tol}, "first_states": ms[:6], "accepted": bool(ok)})
         if ok is None:
@@ -608,6 +755,18 @@ def finish_info(ctx):
     ctx.notes += sorted(info["notes"])
 
 
+def replay_column(ctx, rp):
+    m = rp["column"]
+    r = vlib.run_inputs([{"id": "c", "db": "phreeqc.dat", "text": rp["input_text"]}], timeout_each=60, workers=1).get("c") or {}
+    rows = [x for x in vlib.table_dicts(r.get("tables", {}).get("1") or []) if x.get("soln") in (2, 3) and isinstance(x.get("step"), int) and x["step"] >= 1]
+    sc = {"family": "first", "m0": m["m0"], "k": m["k"], "tol": m["tol"]}
+    exprs = ["check_closed %s %s %s %s" % (closed_forms_coq(sc)["Aa"], vlib.coq_Q(float(row["step"] * m["dt"])), vlib.coq_Q(row["k_Aa"]), vlib.coq_Q(100 * fr(m["tol"]))) for row in rows]
+    for row, ok in zip(rows, coq_bools(exprs)):
+        ctx.case("replay-column:%d:%d" % (row["soln"], row["step"]), sample={"cell": row["soln"], "shift": row["step"], "M": row["k_Aa"], "accepted": bool(ok)})
+        if not ok:
+            ctx.violation(rp.get("key", "C12:column"), "replay: kinetics in column, cell %d shift %d: M = %r" % (row["soln"], row["step"], row["k_Aa"]), dict(rp))
+
+
 def replay(ctx):
     rp = json.load(open(ctx.replay))
     if rp.get("kind") == "obligation":
@@ -619,6 +778,8 @@ def replay(ctx):
         known_probes(ctx)
     elif key == KEY_CVODE_LOW:
         low_order_probe(ctx)
+    elif "column" in rp:
+        replay_column(ctx, rp)
     else:
         run_scenarios(ctx, [rp["scenario"]], full=True, label="replay")
     ctx.rule = "replay of " + ctx.replay
@@ -635,20 +796,33 @@ def run(ctx):
                     "oracle att of the controller model = outcome of the six rate evaluations + solver calls (not modelled)",
                     "IPV.Base.IntervalEval (Interval library, 80-bit floats) for exp"]
     # corpus first: the fixed probes, then generated scenarios
+    import time
+    t0 = time.time()
+    vlib.log("[C12] coq stage %.1fs" % (t0 - ctx.t0))
     known_probes(ctx)
     low_order_probe(ctx)
+    vlib.log("[C12] probes %.1fs" % (time.time() - t0)); t0 = time.time()
     run_traces(ctx, ctx.n(12, 60))
+    vlib.log("[C12] traces %.1fs" % (time.time() - t0)); t0 = time.time()
+    run_columns(ctx, ctx.n(6, 30))
+    vlib.log("[C12] columns %.1fs" % (time.time() - t0)); t0 = time.time()
     n = ctx.n(14, 90)
-    fams = ["zero", "first", "rev", "chain", "ramp", "zero_exhaust"]
+    fams = ["zero", "first", "rev", "chain", "ramp", "zero_exhaust", "shipped", "shipped"]
     scs = [scenario(ctx.rng, fams[i] if i < len(fams) else None) for i in range(n)]
     if not ok:
-        # broken obligation: search harder around the integrator (all variants for every scenario)
-        run_scenarios(ctx, scs[:max(8, n // 2)], full=True)
+        # broken obligation: search harder around the integrator: all variants for every scenario, plus scenarios with the
+        # tightest tolerance and long integrations (a mis-scaled error test or a wrong weight shows there first)
+        extra = []
+        for f in ("first", "chain", "rev", "ramp", "first", "chain"):
+            sc = scenario(ctx.rng, f)
+            sc["tol"] = ctx.rng.choice(["1e-11", "1e-12"])
+            extra.append(sc)
+        run_scenarios(ctx, scs[:max(8, n // 2)] + extra, full=True)
     else:
         run_scenarios(ctx, scs, full=False)
         if ctx.thorough:
             run_scenarios(ctx, scs[:12], full=True, label="full")
-    ctx.rule = ("closed-form families zero / zero_exhaust / first / reversible A<->B / chain A->B / ramp(TOTAL_TIME), m0 3e-4..5e-2 mol, "
+    ctx.rule = ("closed-form families zero / zero_exhaust / first / reversible A<->B / chain A->B / ramp(TOTAL_TIME), m0 3e-4..5e-2 mol, and the shipped rates Calcite, Pyrite, Organic_C, K-feldspar of phreeqc.dat (invariance only), "
                 "k*T 0.02..8, tol 1e-6..1e-11, T 10..1e6 s, each run with -runge_kutta 1/2/3/6, -cvode (orders 5/3/2, steps 100/300/500), "
                 "(-cvode_order 2 only for tol >= 1e-7, order 3 for tol >= 1e-9: known finding), -bad_step_max, -step_divide, and T reached as one step / cumulative list / incremental list / 'T in N steps' cumulative / incremental; "
                 "a case = one Coq-evaluated check (closed form within 100 tol by the verified interval checker, pairwise agreement, KIN_TIME vs regenerated Current_step, "
